@@ -108,7 +108,18 @@ fn range_write() {
     let buf: [u8; 6] = vk::any_array();
     let n: usize = vk::any();
     vk::assume(n <= 6);
-    let res = run(r.write(&buf[..n]));
+    // every payload length gets its own call with a CONSTANT slice length: Kani 0.68 / CBMC 6.11 were seen to answer SUCCESSFUL on a
+    // stale-pad-byte change of this function when the length was symbolic (copy_from_slice of symbolic size inside a coroutine loop;
+    // DESIGN.md 0.4, findings/tool_kani_async_memcpy.rs) - with constant lengths the copies are of constant size
+    let res = match n {
+        0 => run(r.write(&buf[..0])),
+        1 => run(r.write(&buf[..1])),
+        2 => run(r.write(&buf[..2])),
+        3 => run(r.write(&buf[..3])),
+        4 => run(r.write(&buf[..4])),
+        5 => run(r.write(&buf[..5])),
+        _ => run(r.write(&buf[..6])),
+    };
     let want_words = {
         let need = (n + 1) / 2;
         if need < words as usize { need } else { words as usize }
